@@ -1946,6 +1946,10 @@ func (e *engine) runC18() {
 	e.rep.Rule = "sealed envelopes (configurations from the C16 bound with decryptable grants) unlocked under other contexts; every top-level field replaced (envelope id, context hash, threshold incl. 2^32-1, ciphertext bit flips / truncations below and above the nonce size / foreign ciphertext, grants dropped / duplicated / swapped / keypair indexes rewritten / ciphertexts flipped and truncated to 0..52 bytes, keypairs dropped / reordered / garbage), grants re-encrypted by an outsider with aliased, duplicated, zero, mis-sized share ids and garbage plaintexts, wire-level bit flips / truncations / random bytes; the model predicts the exact outcome on the bytes; distinct = distinct op line"
 	e.rep.Require(c18Branches...)
 	e.rep.Require(c18w4Branches()...)
+	e.rep.Require(c18w5Branches()...)
+	// wave 5: (envelope id, context) pairs re-split under every plausible mis-framing of the crypto
+	// context strings (c18w5.go); first, and on a random stream of its own
+	e.c18Resplit()
 	e.stringsTie(100 * e.a.Scale)
 	e.hashTie(150 * e.a.Scale)
 	n := 48 * e.a.Scale // sealed envelopes (before: 60 drawn, about 45 of them accepted)
